@@ -689,7 +689,10 @@ def rename_ident(text, old, new):
     return "".join(parts)
 
 
-def random_split(program, rng, k=None, allow_parent=False):
+LAYOUT_WIDE = ["main.pn", "m1.pn", "lib/m2.pn", "lib/m3.pn", "lib/sub/m4.pn", "util/m5.pn", "util/m6.pn", "m7.pn", "deep/er/m8.pn", "m9.pn"]
+
+
+def random_split(program, rng, k=None, allow_parent=False, allow_empty=False):
     if k is None:
         k = rng.choice([2, 2, 3, 3, 4])
     names = [it.name for it in program.items]
@@ -701,6 +704,8 @@ def random_split(program, rng, k=None, allow_parent=False):
         layout = LAYOUTS[4]     # two directories with a `util.pn` each
     elif k >= 3 and rng.random() < 0.2:
         layout = LAYOUTS[6]     # `config.pn` next to `plugins/config.pn`
+    if k > 4:
+        layout = LAYOUT_WIDE    # many modules: long import chains, diamonds, a module imported by everybody
     files = layout[:k]
     assign = {}
     # every module gets at least one item
@@ -733,7 +738,18 @@ def random_split(program, rng, k=None, allow_parent=False):
             donor = max(range(k), key=lambda x: sum(1 for v in assign.values() if v == x))
             victim = rng.choice([n for n in names if assign[n] == donor])
             assign[victim] = m
+    empty = None
+    if allow_empty and k >= 3 and rng.random() < 0.1:
+        # a module without any declaration, given on the command line and
+        # (mostly) imported by another module
+        empty = rng.randrange(k)
+        for n in names:
+            if assign[n] == empty:
+                assign[n] = (empty + 1 + rng.randrange(k - 1)) % k
     sp = Split(program, assign, files)
+    if empty is not None and rng.random() < 0.8:
+        sp.extra_imports.setdefault(rng.choice([m for m in range(k) if m != empty]), []).append(empty)
+        sp.compute()
     sp.choose_styles(rng)
     return sp
 
